@@ -5,11 +5,13 @@ package main
 
 import (
 	"go/ast"
+	"go/constant"
 	"strconv"
 	"go/token"
 	"go/types"
 
 	"golang.org/x/tools/go/packages"
+	"golang.org/x/tools/go/ssa"
 )
 
 // immutableVarInit returns the initialiser of the package-level variable o of pkg when nothing in the package can
@@ -280,4 +282,167 @@ func constantStringVal(tv types.TypeAndValue) string {
 		}
 	}
 	return s
+}
+
+// funcTable: the contents of a package-level map from constant keys to function values, or to small structs with
+// function-valued fields, that is never written after its initialisation: key -> function, resp. key -> field -> function.
+type funcTable struct {
+	fns    map[int64]*ssa.Function         // map[K]func(...)
+	fields map[int64]map[int]*ssa.Function // map[K]struct{...func...}: field number -> function
+}
+
+// funcTableOf reads the table off the package initialiser's SSA form (a composite literal is compiled to a make
+// and one map update per entry).
+func (c *Ctx) funcTableOf(g *ssa.Global) *funcTable {
+	if g == nil || g.Object() == nil {
+		return nil
+	}
+	key := "funcTable:" + g.Pkg.Pkg.Path() + "." + g.Name()
+	if t, ok := c.memo[key]; ok {
+		ft, _ := t.(*funcTable)
+		return ft
+	}
+	c.memo[key] = (*funcTable)(nil)
+	pkg := c.pkgOfTypes(g.Object().Pkg())
+	if pkg == nil || c.immutableVarInit(pkg, g.Object()) == nil {
+		return nil
+	}
+	if _, isMap := g.Object().Type().Underlying().(*types.Map); !isMap {
+		return nil
+	}
+	init := g.Pkg.Func("init")
+	if init == nil {
+		return nil
+	}
+	var m ssa.Value
+	allInstrs(init, func(in ssa.Instruction) {
+		if st, ok := in.(*ssa.Store); ok && st.Addr == ssa.Value(g) {
+			m = st.Val
+		}
+	})
+	if _, ok := m.(*ssa.MakeMap); !ok {
+		return nil
+	}
+	fnOf := func(v ssa.Value) *ssa.Function {
+		switch x := v.(type) {
+		case *ssa.Function:
+			return x
+		case *ssa.MakeClosure:
+			if f, ok := x.Fn.(*ssa.Function); ok && len(x.Bindings) == 0 {
+				return f
+			}
+		}
+		return nil
+	}
+	ft := &funcTable{fns: map[int64]*ssa.Function{}, fields: map[int64]map[int]*ssa.Function{}}
+	good := true
+	allInstrs(init, func(in ssa.Instruction) {
+		mu, ok := in.(*ssa.MapUpdate)
+		if !ok || mu.Map != m {
+			return
+		}
+		kc, ok := mu.Key.(*ssa.Const)
+		if !ok || kc.Value == nil {
+			good = false
+			return
+		}
+		k, ok := constant.Int64Val(constant.ToInt(kc.Value))
+		if !ok {
+			good = false
+			return
+		}
+		if f := fnOf(mu.Value); f != nil {
+			ft.fns[k] = f
+			return
+		}
+		// a struct value loaded from a local composite literal
+		if ld, ok := mu.Value.(*ssa.UnOp); ok && ld.Op == token.MUL {
+			if al, ok := ld.X.(*ssa.Alloc); ok && al.Referrers() != nil {
+				fs := map[int]*ssa.Function{}
+				for _, r := range *al.Referrers() {
+					fa, ok := r.(*ssa.FieldAddr)
+					if !ok || fa.Referrers() == nil {
+						continue
+					}
+					for _, r2 := range *fa.Referrers() {
+						if st, ok := r2.(*ssa.Store); ok && st.Addr == ssa.Value(fa) {
+							if f := fnOf(st.Val); f != nil {
+								fs[fa.Field] = f
+							}
+						}
+					}
+				}
+				ft.fields[k] = fs
+				return
+			}
+		}
+		good = false
+	})
+	if !good || (len(ft.fns) == 0 && len(ft.fields) == 0) {
+		return nil
+	}
+	c.memo[key] = ft
+	return ft
+}
+
+// tableLookupOf: v is (a component of) a lookup in a package-level function table: the table, the key value and, for a
+// table of structs, the field selected (-1 for a table of plain functions or when the whole entry is meant).
+func (c *Ctx) tableLookupOf(v ssa.Value) (ft *funcTable, keyVal ssa.Value, field int, lk *ssa.Lookup) {
+	field = -1
+	for i := 0; i < 6; i++ {
+		switch x := v.(type) {
+		case *ssa.Field:
+			field = x.Field
+			v = x.X
+			continue
+		case *ssa.Extract:
+			if x.Index != 0 {
+				return nil, nil, -1, nil
+			}
+			v = x.Tuple
+			continue
+		case *ssa.UnOp:
+			// the entry was put into a local variable first: a load of (a field of) a local that is stored once
+			if x.Op != token.MUL {
+				return nil, nil, -1, nil
+			}
+			addr := x.X
+			if fa, ok := addr.(*ssa.FieldAddr); ok {
+				field = fa.Field
+				addr = fa.X
+			}
+			al, ok := addr.(*ssa.Alloc)
+			if !ok || al.Referrers() == nil {
+				return nil, nil, -1, nil
+			}
+			var stored ssa.Value
+			n := 0
+			for _, r := range *al.Referrers() {
+				if st, ok := r.(*ssa.Store); ok && st.Addr == ssa.Value(al) {
+					stored = st.Val
+					n++
+				}
+			}
+			if n != 1 {
+				return nil, nil, -1, nil
+			}
+			v = stored
+			continue
+		case *ssa.Lookup:
+			ld, ok := x.X.(*ssa.UnOp)
+			if !ok || ld.Op != token.MUL {
+				return nil, nil, -1, nil
+			}
+			g, ok := ld.X.(*ssa.Global)
+			if !ok {
+				return nil, nil, -1, nil
+			}
+			if t := c.funcTableOf(g); t != nil {
+				return t, x.Index, field, x
+			}
+			return nil, nil, -1, nil
+		}
+		break
+	}
+	return nil, nil, -1, nil
 }
